@@ -258,7 +258,17 @@ def _symbolic_for(interp, s, frame, state, space):
     where = f"{frame.fname}:{s.lineno}"
     key = (frame.fname, "for", _loop_ordinal(frame, s))
     # zero-trip: split on hi <= lo unless decided
-    nonempty = interp.decide(sv.cmp(">", hi, lo))
+    maybe_empty = False
+    try:
+        nonempty = interp.decide(sv.cmp(">", hi, lo))
+    except Fork:
+        # emptiness is not decided by the path condition: no fork.  The closed-form summary state(hi) is also the state of
+        # the zero-trip case for every accumulation / scatter form (Σ over an empty range is 0, no writer iteration in an
+        # empty range); variables that merely hold the value of the last iteration are merged with their previous value
+        # by if-then-else when both are scalars and become *undetermined* otherwise (using one is an engine limit).
+        if s.orelse:
+            raise
+        nonempty, maybe_empty = True, True
     if not nonempty:
         if s.orelse:
             interp.exec_body_single(s.orelse, frame)
@@ -456,11 +466,33 @@ def _symbolic_for(interp, s, frame, state, space):
             st.events.append(("store", sid, where, list(st.pc)))
     # new allocations made by the last iteration that remain referenced by last-value variables
     _import_last_iteration_cells(fr1, st1, st, iz, hi, summary_env, frame)
+    if maybe_empty:
+        ran = sv.cmp(">", hi, lo)
+        for name, summ in summary_env.items():
+            if summ[0] not in ("last", "last_obj"):
+                continue
+            pre = pre_env.get(name, _MISSING)
+            post = frame.env.get(name, _MISSING)
+            if pre is not _MISSING and post is not _MISSING and sv.is_scalar(norm(pre)) and sv.is_scalar(norm(post)):
+                frame.env[name] = ite(ran, post, pre)
+            elif pre is post:
+                pass
+            else:
+                frame.env[name] = Undetermined(name, where)
     if s.orelse:
         interp.exec_body_single(s.orelse, frame)
 
 
 _MISSING = object()
+
+
+class Undetermined:
+    """value of a variable after a loop that may not have run, when the two possibilities cannot be merged"""
+    def __init__(self, name, where):
+        self.name, self.where = name, where
+
+    def __repr__(self):
+        return f"<undetermined {self.name} after the loop at {self.where}>"
 
 
 def _loop_ordinal(frame, s):
